@@ -85,7 +85,7 @@ static rc::Gen<long long> colDev(const ScriptCfg &c, bool analog) {
     if (!c.deviations) return g::just<long long>(0);
     std::vector<long long> devs = {1, 2, 3, 4, 5, 6};
     if (c.ragged) devs.push_back(7);
-    if (analog) { devs.push_back(9); devs.push_back(10); }
+    if (analog) { devs.push_back(9); devs.push_back(10); if (c.ragged) devs.push_back(11); }
     return g::weightedOneOf<long long>({{5, g::just<long long>(0)}, {5, g::elementOf(devs)}});
 }
 static rc::Gen<Op> gEditOp(const ScriptCfg &c) {
@@ -128,7 +128,7 @@ rc::Gen<std::vector<Op>> genScriptOps(const ScriptCfg &c) {
         return g::mapcat(uni(0, 99), [o, pct](long long k) { return k < pct ? one(o) : g::just(std::vector<Op>()); });
     };
     auto pr = maybe(op("prate", {uni(0, kNumRates - 1)}), 88), ar = maybe(op("arate", {sized(0, 9)}), 80);
-    auto seg = [c]() { return ops(gSetupOp(c, false), c.maxSetup / 3 + 1); };
+    auto seg = [c]() { return ops(gSetupOp(c, c.lateRates), c.maxSetup / 3 + 1); };   // C05 changes rates several times before frames exist
     // a burst of declarations so that most objects carry points and/or channels
     auto declP = ops(op("declp", {nameIdx(), trail()}), c.maxFrames > 20 ? 12 : 5);
     auto declA = ops(op("decla", {nameIdx(), trail()}), c.maxFrames > 20 ? 8 : 4);
